@@ -1,0 +1,11 @@
+//go:build verif
+
+package tpmdetection
+
+// Hook for the external verification harness (/verif, property C15). Only
+// compiled with `-tags verif`.
+
+// LocalForVerif calls local with explicit paths.
+func LocalForVerif(devicePath, capabilities string) (Type, error) {
+	return local(devicePath, capabilities)
+}
